@@ -503,6 +503,13 @@ def _find_registered_methods(cls, selector):
       _RENAMED_SELECTORS[old_selector] = new_selector
       _REGISTRY.pop(old_selector)
       _REGISTRY[new_selector] = method_info
+      if old_selector != new_selector:
+        # Whatever was bound (or recorded) for the function under its old name
+        # now belongs to the method.
+        with _OPERATIVE_CONFIG_LOCK:
+          for store in (_CONFIG, _CONFIG_PROVENANCE, _OPERATIVE_CONFIG):
+            for key in [k for k in store if k[1] == old_selector]:
+              store[key[0], new_selector] = store.pop(key)
       _INVERSE_REGISTRY[method] = method_info
       registered_methods[name] = method_info.wrapper
     else:
